@@ -258,24 +258,35 @@ func runC06(c *Ctx) {
 	methodsFld := p.MustField("Transcoder", "methods")
 	restTargetFld := p.MustField("operation", "restTarget")
 	{
-		paths, ok := EnumPaths(resolve.Blocks[0], nil, IsReturn, 0)
-		if !ok {
-			c.Unknown("C06.3", FuncName(resolve), "paths", resolve.Pos(), "too many paths")
-		}
-		var matchCall ssa.Value
-		for _, call := range Calls(resolve) {
-			for _, cal := range p.CalleesAt(call) {
-				if cal == match {
-					matchCall = call.Value()
+		family := p.Family(resolve)
+		var paths []CFGPath
+		for _, rf := range family {
+			ps, ok := EnumPaths(rf.Blocks[0], nil, IsReturn, 0)
+			if !ok {
+				c.Unknown("C06.3", FuncName(rf), "paths", rf.Pos(), "too many paths")
+			}
+			for _, cp := range ps {
+				if !ForwardsMember(cp.End.(*ssa.Return), family) {
+					paths = append(paths, cp)
 				}
 			}
 		}
+		var matchCall ssa.Value
 		var rpcLookup *ssa.Lookup
-		ForEachInstr(resolve, func(in ssa.Instruction) {
-			if l, ok := in.(*ssa.Lookup); ok && LoadedField(l.X) == methodsFld {
-				rpcLookup = l
+		for _, rf := range family {
+			for _, call := range Calls(rf) {
+				for _, cal := range p.CalleesAt(call) {
+					if cal == match {
+						matchCall = call.Value()
+					}
+				}
 			}
-		})
+			ForEachInstr(rf, func(in ssa.Instruction) {
+				if l, ok := in.(*ssa.Lookup); ok && LoadedField(l.X) == methodsFld {
+					rpcLookup = l
+				}
+			})
+		}
 		if rpcLookup == nil {
 			c.Bad("C06.3", FuncName(resolve), "rpc-lookup", resolve.Pos(), "RPC-style paths are not resolved by a lookup in the method table")
 		} else {
@@ -300,6 +311,9 @@ func runC06(c *Ctx) {
 				if mc, ok := matchCall.(*ssa.Call); ok && b == mc.Block() {
 					inREST = true
 				}
+			}
+			if len(ret.Results) == 0 {
+				continue
 			}
 			switch {
 			case originIsGlobal(v, notFound):
